@@ -102,3 +102,24 @@ Theorem C20_clean_rooted_shape : forall p, rooted p = true ->
   (clean p = [slash] \/ last (clean p) 0 <> slash).
 Proof. exact (fun p H => conj (clean_rooted_shape p H) (clean_no_trailing_slash p H)). Qed.
 Print Assumptions C20_clean_rooted_shape.
+
+(* several middlewares built in one process, then requested (state carried across builds). A chain of UI middlewares, each
+   the next handler of the one before: the answer is the page, AS BUILT ALONE, of the first member configured on the
+   cleaned request path; otherwise the request reaches the handler behind the chain (404 without one) *)
+Theorem C20_chain_first_match : forall ms hn req, forallb is_ui_member ms = true ->
+  chain_handler ms hn req =
+  match find (fun m => bytes_eqb (clean req) (member_path m)) ms with
+  | Some m => HServe CTHtml (member_page m)
+  | None => if hn then HNext else H404 CTPlain
+  end.
+Proof. exact chain_first_match. Qed.
+Print Assumptions C20_chain_first_match.
+
+(* side by side: a member requested on its own path serves its own page, whatever else was built; under an API handler the
+   page is served exactly when the single API handler serves its UI *)
+Theorem C20_member_serves_own_page :
+  (forall m hn, is_ui_member m = true -> clean (member_path m) = member_path m ->
+     member_handler m hn (member_path m) = HServe CTHtml (member_page m)) /\
+  (forall f a page req, member_handler (MAPI f a page) true req = HServe CTHtml page <-> api_handler f a req = AUI).
+Proof. exact (conj member_page_served api_member_page). Qed.
+Print Assumptions C20_member_serves_own_page.
